@@ -17,7 +17,7 @@ DEFECTS = ["end_not_after_start", "step_not_dividing", "infectious_unknown", "in
            "output_comp_unknown", "adjusted_flow_unknown", "adj_filter_unknown_strat", "adj_filter_unknown_stratum", "agg_source_unknown",
            "cum_source_unknown", "func_source_unknown", "flow_output_unknown", "flow_adj_omits", "inf_adj_omits", "split_omits", "split_negative", "split_sum",
            "second_birth", "second_age", "second_strain", "dup_strat", "dup_udeath", "dup_output", "mixing_partial", "age_partial",
-           "mixing_strain", "unequal_src_dst", "expected_count", "bad_rate", "finalized", "source_is_rejected_request", "output_comp_not_in_strat"]
+           "mixing_strain", "unequal_src_dst", "expected_count", "bad_rate", "finalized", "source_is_rejected_request", "output_comp_not_in_strat", "flow_both_ends_unknown", "step_not_dividing_large_grid"]
 
 WHERE = ["src", "dst", "src+valid_dst", "dst+valid_src"]
 
@@ -84,6 +84,15 @@ def inject(r, prog, defect, where=None):
         ops.insert(i, {"op": "flow", "kind": k, "name": "badflow", "param": {"c": "1/8"}, "src": a, "dst": b}); return ops, i
     if defect == "output_comp_unknown":
         ops.append({"op": "request", "name": "bad_out", "kind": "comp", "comps": ["Z"], "save": True}); return ops, len(ops) - 1
+    if defect == "flow_both_ends_unknown":
+        # neither end exists (0 sources == 0 destinations must not make it acceptable)
+        i = pos_after_init()
+        k = r.choice(["transition", "inf_freq", "inf_dens", "absolute"])
+        ops.insert(i, {"op": "flow", "kind": k, "name": "ghostflow", "param": {"c": "1/8"}, "src": "Zs", "dst": "Zd"}); return ops, i
+    if defect == "step_not_dividing_large_grid":
+        # tens of thousands of time points: the step count misses an integer by a third / a half (relative closeness must not be enough)
+        t0, t1, dt = r.choice([("0", "200", "3/1000"), ("0", "200000", "3"), ("0", "100001", "2"), ("1990", "2090", "7/10000")])
+        ops[0] = dict(ops[0], t0=t0, t1=t1, dt=dt); return ops, 0
     if defect == "output_comp_not_in_strat":
         # an output compartment that does not exist because the NAMED compartment is not stratified by the filter's (partial) stratification
         # (the name exists, the stratum exists — but no compartment carries both)
